@@ -7,6 +7,7 @@ pub mod mass;
 pub mod netval;
 pub mod path;
 pub mod powertrain;
+pub mod serde_rt;
 pub mod train;
 
 pub struct Spec {
@@ -127,6 +128,10 @@ pub fn spec(id: &str) -> Option<Spec> {
         "C20" => Spec { id: "C20", run: mass::run_c20, cases_quick: 24000, cases_thorough: 1000000,
             rule: "case = one object (FuelConverter / Generator / ReversibleEnergyStorage / Locomotive loaded from JSON with redundant mass data: none, consistent, inconsistent, partial) followed by 1..12 random calls of set_mass (all MassSideEffect options, Some/None/derived values), expunge_mass_fields, set_force_max (all five ForceMaxSideEffect options), set_mu (all three MuSideEffect options); or a consist of 1..8 units + a built train. After an accepted call: getters Ok, mass == rating/specific, force_max == mu*mass*g when both known, option-specific side effects; after a rejected call: every getter that was Ok reports the same value. Non-trivial = sequence with >=1 accepted and >=1 rejected call; distinct = case hash",
             assumptions: &["private mass fields are read through serde_json (pyo3-only getters cannot be linked into a Rust harness)", "Locomotive sequences start from the shipped conventional / battery-electric defaults with mass, mu, force_max overwritten in the JSON"] },
+        "C17" => Spec { id: "C17", run: serde_rt::run_c17, cases_quick: 480, cases_thorough: 24000,
+            rule: "case k selects a type group (k mod 12): components, locomotive kinds and consists, traces/vehicles/configs/builders, track objects (Link, Network, PathTpc built/finished), and the four simulation kinds; every object is taken through yaml, json and bincode: serialize, deserialize, second round trip byte-identical (no drift), reloaded data equal (bitwise for yaml/bincode, <= 1 ulp per number for json). For simulations EVERY step index 0..N of a short run (8-60 steps) is a checkpoint: save, load, resume to the end, final object compared with the uninterrupted run. Non-trivial/distinct = (group, case)",
+            assumptions: &["'behaves identically' is decided on the serialized data of the object after running to the end (fields marked serde(skip) are caches rebuilt on demand and are not compared)",
+                "EstTimeNet is covered under C15's workload (it needs a dispatch-sized network)"] },
         _ => return None,
     })
 }
